@@ -5,7 +5,7 @@
   `_attrs_to_init_script` (parameter list, per-field statements, validator block, post-init, hash-cache
   reset, BaseException.__init__, pre-init argument list), `_determine_setters` / `_assign` / `_setattr`
   (store technique), `_is_slot_attr` with `base_attr_map` as `_collect_base_attrs{,_broken}` build it,
-  `Converter._fmt_converter_call`, `_ClassBuilder.add_setattr` (which names get a hook), and CPython's
+  `Converter._fmt_converter_call`, `pipe` (converter chains run member by member), `_ClassBuilder.add_setattr` (which names get a hook), and CPython's
   argument binding for this parameter shape.
 
   Values are symbolic strings built the same way by the harness callbacks (`conv.x(t1,self)`), so
@@ -53,6 +53,11 @@ structure Attr where
   /-- the field's type annotation and the converter's first-parameter annotation (as reprs) -/
   type : Option String
   convType : Option String
+  /-- `converter=[c0, c1, …]` / `converters.pipe(c0, c1, …)`: the members of the chain, left to right (what each asks
+      for: `Converter(takes_self, takes_field)`, a plain callable asks for nothing).  `conv` is then the shape of the
+      ONE call the generated initializer makes (`pipe()` returns a plain callable if no member is a `Converter`,
+      otherwise `Converter(pipe_converter, takes_self=True, takes_field=True)`); `none` = a single converter. -/
+  pipe : Option (List Conv) := none
   deriving DecidableEq, Repr, FromJson, ToJson, Inhabited
 
 /-- What `_collect_base_attrs*` sees of one class of `cls.__mro__[1:-1]`: whether `__slots__` is in its
@@ -256,21 +261,80 @@ def convVal (a : Attr) (c : Conv) (v : Val) : Val :=
 def convEventArgs (a : Attr) (c : Conv) (v : Val) : List Val :=
   [v] ++ (if c.takesSelf then ["self"] else []) ++ (if c.takesField then ["attr." ++ a.name] else [])
 
-/-- the value a field ends up with for raw input `v`: once through its converter, if any -/
+/-! ## Converter chains (`pipe`) -/
+
+/-- the arguments a converter of field `n` receives: the value, then instance and/or field if requested -/
+def convEventArgsN (n : String) (c : Conv) (v : Val) : List Val :=
+  [v] ++ (if c.takesSelf then ["self"] else []) ++ (if c.takesField then ["attr." ++ n] else [])
+
+/-- the symbolic result of member `i` of the converter chain of field `n`; member 0 prints like a single converter -/
+def convValAt (n : String) (i : Nat) (c : Conv) (v : Val) : Val :=
+  (if i = 0 then "conv." else "conv" ++ toString i ++ ".") ++ n ++ "(" ++ v ++ (if c.takesSelf then ",self" else "")
+    ++ (if c.takesField then ",attr." ++ n else "") ++ ")"
+
+/-- `pipe_converter` of `pipe()` for field `n`: the members run left to right, each on the result of the previous
+    one, each given the instance and/or the field if it asked for them; member `i` is event `conv`/`idx i`.  A member
+    that raises ends the chain (the value returned alongside is then meaningless). -/
+def runConvs (fault : Option EventId) (n : String) : Nat → List Conv → Val → St → St × Val
+  | _, [], v, st => (st, v)
+  | i, c :: cs, v, st =>
+    let st1 := st.emit fault { id := { kind := "conv", field := n, idx := i }, args := convEventArgsN n c v }
+    if st1.raised.isSome then (st1, v) else runConvs fault n (i + 1) cs (convValAt n i c v) st1
+
+/-- the value a chain of members starting at index `i` turns `v` into -/
+def pipeVal (n : String) : Nat → List Conv → Val → Val
+  | _, [], v => v
+  | i, c :: cs, v => pipeVal n (i + 1) cs (convValAt n i c v)
+
+/-- the callbacks of a chain of members starting at index `i`, with the value each receives -/
+def pipeEvents (n : String) : Nat → List Conv → Val → List Event
+  | _, [], _ => []
+  | i, c :: cs, v =>
+    { id := { kind := "conv", field := n, idx := i }, args := convEventArgsN n c v } :: pipeEvents n (i + 1) cs (convValAt n i c v)
+
+/-- the value a field ends up with for raw input `v`: once through its converter -- every member of a chain, left
+    to right -- if any -/
 def convApply (a : Attr) (v : Val) : Val :=
   match a.conv with
   | none => v
-  | some c => convVal a c v
+  | some c =>
+    match a.pipe with
+    | none => convVal a c v
+    | some ms => pipeVal a.name 0 ms v
+
+/-- the converter callbacks of a field for raw input `v`, with the value each receives: one event for a single
+    converter, one per member (`idx` = position) for a chain -/
+def convEventsOf (a : Attr) (v : Val) : List Event :=
+  match a.conv with
+  | none => []
+  | some c =>
+    match a.pipe with
+    | none => [{ id := { kind := "conv", field := a.name, idx := 0 }, args := convEventArgs a c v }]
+    | some ms => pipeEvents a.name 0 ms v
+
+/-- how many converter callbacks a field has: the members of its chain, 1 for a single converter -/
+def convCount (a : Attr) : Nat :=
+  match a.conv with
+  | none => 0
+  | some _ =>
+    match a.pipe with
+    | none => 1
+    | some ms => ms.length
 
 /-! ## The initializer -/
 
-/-- `x = conv(v)` through technique `t`: converter event (may raise), then the store -/
+/-- `x = conv(v)` through technique `t`: converter event(s) (may raise), then the store -/
 def setField (cfg : Cfg) (fault : Option EventId) (belief : Bool) (a : Attr) (v : Val) (st : St) : St :=
   match a.conv with
   | none => st.store cfg fault (tech cfg belief a) a v
   | some c =>
-    let st1 := st.emit fault { id := { kind := "conv", field := a.name, idx := 0 }, args := convEventArgs a c v }
-    if st1.raised.isSome then st1 else st1.store cfg fault (tech cfg belief a) a (convVal a c v)
+    match a.pipe with
+    | none =>
+      let st1 := st.emit fault { id := { kind := "conv", field := a.name, idx := 0 }, args := convEventArgs a c v }
+      if st1.raised.isSome then st1 else st1.store cfg fault (tech cfg belief a) a (convVal a c v)
+    | some ms =>
+      let r := runConvs fault a.name 0 ms v st
+      if r.1.raised.isSome then r.1 else r.1.store cfg fault (tech cfg belief a) a r.2
 
 def callFactory (fault : Option EventId) (a : Attr) (ts : Bool) (st : St) : St :=
   st.emit fault { id := { kind := "factory", field := a.name, idx := 0 }, args := factoryArgs ts }
